@@ -31,8 +31,12 @@ def ipts(X, scale=1):
     return R.tolist()
 
 
+SHARED = {}
+
+
 def affine_event(darsia, rng, dim, ks, tid):
-    A = darsia.AffineTransformation(dim)
+    # half of the events re-parametrise one long-lived object per dimension: the map is a function of the parameters set last
+    A = SHARED.setdefault(dim, darsia.AffineTransformation(dim)) if rng.random() < 0.5 else darsia.AffineTransformation(dim)
     sn, sd = rng.choice([(1, 1), (2, 1), (1, 2)])
     t = [rng.randint(-5, 5) for _ in range(dim)]
     A.set_parameters(translation=np.array(t, dtype=float), scaling=sn / sd, rotation=np.array([k * math.pi / 2 for k in ks]))
@@ -48,8 +52,38 @@ def affine_event(darsia, rng, dim, ks, tid):
             "pts": ipts(pts), "fwd2": ipts(fwd, 2), "back": ipts(back), "back2": ipts(back2)}
 
 
-def generic_event(darsia, rng, dim, tid):
+def fit_events(darsia, rng, dim, tid):
+    """Least-squares fits on ONE object, to exact images of the source points under a known map: general, isometry, general.
+    Each fit has to reproduce its point pairs; a fit with isometry=True has unit scaling whatever the object held before."""
+    import contextlib
+    import io
     A = darsia.AffineTransformation(dim)
+    out = []
+    for step, iso in enumerate((False, True, False)):
+        T = darsia.AffineTransformation(dim)
+        ang = [rng.uniform(-0.6, 0.6) for _ in range(1 if dim == 2 else 3)]
+        sc = 1.0 if iso else rng.choice([0.5, 2.0, 1.5])
+        T.set_parameters(translation=np.array([rng.uniform(-3, 3) for _ in range(dim)]), scaling=sc, rotation=np.array(ang))
+        src = np.array([[rng.uniform(-5, 5) for _ in range(dim)] for _ in range(8)])
+        dst = T.call_array(src)
+        e = {"tid": f"{tid}:{step}", "op": "fit", "dim": dim, "isometry": int(iso), "step": step, "raised": 0, "resexp": 3, "scaling6": 0}
+        try:
+            with contextlib.redirect_stdout(io.StringIO()), warnings.catch_warnings():
+                warnings.simplefilter("ignore")
+                A.fit(darsia.make_coordinate(src), darsia.make_coordinate(dst), fit_options={"tol": 1e-12, "maxiter": 5000, "isometry": iso})
+            e["resexp"] = exponent(float(np.abs(A.call_array(src) - dst).max()))
+            e["scaling6"] = int(round(1e6 * float(A.scaling)))
+            back = np.asarray(A.inverse_array(A.call_array(src)))
+            e["rtexp"] = exponent(float(np.abs(back - src).max()))
+        except Exception as ex:  # noqa
+            e["raised"] = 1
+            e["error"] = repr(ex)[:160]
+        out.append(e)
+    return out
+
+
+def generic_event(darsia, rng, dim, tid):
+    A = SHARED.setdefault(("g", dim), darsia.AffineTransformation(dim)) if rng.random() < 0.5 else darsia.AffineTransformation(dim)
     angles = [rng.uniform(-math.pi, math.pi) for _ in range(1 if dim == 2 else 3)]
     if dim == 3 and rng.random() < 0.3:
         angles[rng.randrange(3)] = 0.0
@@ -200,6 +234,9 @@ def run(ck, replay=None):
             events.append(affine_event(darsia, rng, 3, ks, "affine3:" + "".join(map(str, ks))))
         for i in range(20 if quick else 300):
             events.append(generic_event(darsia, rng, rng.choice([2, 3]), f"generic:{i}"))
+        for i in range(2 if quick else 20):
+            for dim in (2, 3):
+                events += fit_events(darsia, rng, dim, f"fit{dim}:{i}")
         # warps: identity, whole-voxel shifts (also larger than the image), quarter turns; three typings
         nw = 60 if quick else 1500
         for i in range(nw):
